@@ -10,3 +10,59 @@ package java_identify
 //@ func NewJavaIdentifierListener
 //@ establishes
 //@ modifies *
+
+// ---- C01: what each callback of the identifier pass records
+
+// annotations among the modifiers of the enclosing class / interface body declaration
+//@ spec BodyDecl(m Node) Node := Parent(Parent(m))
+//@ spec IsAnnMod(b Node, j int) bool := Child(ChildN(b, "modifier", j), "classOrInterfaceModifier") != nil && IsKind(Kid(Child(ChildN(b, "modifier", j), "classOrInterfaceModifier"), 0), "AnnotationContext")
+//@ spec rec NAnn(b Node, n int) int := n <= 0 ? 0 : NAnn(b, n - 1) + (IsAnnMod(b, n - 1) ? 1 : 0)
+//@ spec MethodAnnotations(m Node) int := NAnn(BodyDecl(m), Count(BodyDecl(m), "modifier"))
+
+//@ method JavaIdentifierListener.EnterPackageDeclaration
+//@ modifies *currentNode
+//@ ensures (*currentNode).Package == GetText(Child(ctx, "qualifiedName"))
+//@ ensures (*currentNode).NodeName == old((*currentNode).NodeName) && (*currentNode).Functions == old((*currentNode).Functions)
+
+//@ method JavaIdentifierListener.EnterClassDeclaration
+//@ modifies *currentNode
+//@ modifies hasEnterClass
+//@ modifies currentMethod
+//@ ensures (*currentNode).Type == "Class" && (*currentNode).NodeName == GetText(Child(ctx, "identifier"))
+//@ ensures Child(ctx, "EXTENDS") != nil ==> (*currentNode).Extend == GetText(Child(ctx, "typeType"))
+//@ ensures (*currentNode).Package == old((*currentNode).Package) && (*currentNode).Functions == old((*currentNode).Functions)
+
+// a method declaration starts a function entry with its name, return type and all annotations written on it
+//@ method JavaIdentifierListener.EnterMethodDeclaration
+//@ modifies currentMethod
+//@ modifies hasEnterClass
+//@ modifies isOverrideMethod
+//@ ensures currentMethod.Name == GetText(Child(ctx, "identifier")) && currentMethod.ReturnType == GetText(Child(ctx, "typeTypeOrVoid")) && !currentMethod.IsConstructor
+//@ ensures IsKind(BodyDecl(ctx), "ClassBodyDeclarationContext") ==> len(currentMethod.Annotations) == old(len(currentMethod.Annotations)) + MethodAnnotations(ctx)
+
+// the end of a method declaration lists the entry exactly once
+//@ method JavaIdentifierListener.ExitMethodDeclaration
+//@ modifies *currentNode
+//@ modifies currentMethod
+//@ ensures len((*currentNode).Functions) == old(len((*currentNode).Functions)) + 1 && Extends((*currentNode).Functions, old((*currentNode).Functions), 1)
+//@ ensures (*currentNode).Functions[len((*currentNode).Functions) - 1] == old(currentMethod)
+//@ ensures currentMethod.Name == "" && len(currentMethod.Annotations) == 0
+//@ ensures (*currentNode).NodeName == old((*currentNode).NodeName) && (*currentNode).Package == old((*currentNode).Package)
+
+//@ method JavaIdentifierListener.EnterConstructorDeclaration
+//@ modifies currentMethod
+//@ ensures currentMethod.Name == GetText(Child(ctx, "identifier")) && currentMethod.ReturnType == "" && currentMethod.IsConstructor
+
+//@ method JavaIdentifierListener.ExitConstructorDeclaration
+//@ modifies *currentNode
+//@ ensures len((*currentNode).Functions) == old(len((*currentNode).Functions)) + 1 && Extends((*currentNode).Functions, old((*currentNode).Functions), 1)
+//@ ensures (*currentNode).Functions[len((*currentNode).Functions) - 1] == old(currentMethod)
+
+// the end of a class body lists the class exactly once (if it has a name) and starts a fresh entry
+//@ method JavaIdentifierListener.ExitClassBody
+//@ modifies nodes
+//@ modifies currentNode
+//@ modifies hasEnterClass
+//@ ensures old((*currentNode).NodeName) != "" ==> len(nodes) == old(len(nodes)) + 1 && Extends(nodes, old(nodes), 1) && nodes[len(nodes) - 1] == old(*currentNode)
+//@ ensures old((*currentNode).NodeName) == "" ==> nodes == old(nodes)
+//@ ensures currentNode != nil && (*currentNode).NodeName == "" && len((*currentNode).Functions) == 0
